@@ -237,3 +237,55 @@ Lemma old_storage_ignores_exp :
   c_storage_old srv0 now (b "alice") {| r_col_exp := 9999; r_jws := t |} = Some (b "hash") /\
   c_storage srv0 now (b "alice") {| r_col_exp := 9999; r_jws := t |} = None.
 Proof. vm_compute. split; reflexivity. Qed.
+
+(* GetSigned through either arm of its select, whatever the other store holds: a served record
+   sits in the slot of the store that answered, with an expiration column in the future, is
+   genuine, of kind storage_data, names this server, lies inside its signed window, and was
+   signed FOR THE REQUESTED USER *)
+Lemma get_signed_via_sound p st now u prim cache d : get_signed_via p st now u prim cache = Some d ->
+  exists r, answering_row p prim cache = Some r /\ unix now < r_col_exp r /\
+    genuine st (r_jws r) /\ names_server st (t_claims (r_jws r)) /\
+    rd_str "token_type" (t_claims (r_jws r)) = Some k_storage /\
+    (exists nbf, rd_int "nbf" (t_claims (r_jws r)) = Some nbf /\ nbf <= unix now) /\
+    (exists e, rd_int "exp" (t_claims (r_jws r)) = Some e /\ unix now <= e) /\
+    rd_str "sub" (t_claims (r_jws r)) = Some u /\ rd_str "data" (t_claims (r_jws r)) = Some d.
+Proof.
+  unfold get_signed_via. destruct (answering_row p prim cache) as [r|]; [|discriminate].
+  intro H. apply c_storage_sound in H. destruct H as [C [g [SD [SU DA]]]].
+  apply storage_data_sound in SD. destruct SD as [G [NS [K [N [X [XE [S D]]]]]]].
+  exists r. split; [reflexivity|]. split; [exact C|]. split; [exact G|]. split; [exact NS|]. split; [exact K|].
+  split; [exact N|]. split; [exists (g_exp g); split; assumption|]. subst u d. split; assumption.
+Qed.
+
+(* the arm that answers decides alone: the other store's content is irrelevant *)
+Lemma get_signed_via_other p st now u r x y :
+  get_signed_via p st now u (match p with PPrimary => r | PCache => x end) (match p with PPrimary => x | PCache => r end) =
+  get_signed_via p st now u (match p with PPrimary => r | PCache => y end) (match p with PPrimary => y | PCache => r end).
+Proof. destruct p; reflexivity. Qed.
+
+(* a cache arm that skips the subject comparison serves bob's genuine record, moved into alice's
+   row of the cache, as alice's; the code refuses it on both arms *)
+Lemma cache_arm_without_subject_refuted :
+  let now := 2000 * NS in
+  let t := p_storage srv0 (1000 * NS) (b "bob") 1 (b "bobs-hash") 5000 in
+  let moved := Some {| r_col_exp := 5000; r_jws := t |} in
+  c_storage_nosub srv0 now (b "alice") {| r_col_exp := 5000; r_jws := t |} = Some (b "bobs-hash") /\
+  get_signed_via PCache srv0 now (b "alice") None moved = None /\
+  get_signed_via PPrimary srv0 now (b "alice") moved None = None /\
+  get_signed_via PCache srv0 now (b "bob") None moved = Some (b "bobs-hash").
+Proof. vm_compute. repeat split; reflexivity. Qed.
+
+(* what the storage consumer does NOT bind: the signed data_type.  Two records that differ only in
+   their data_type get the same verdict, whatever slot they sit in (GetSigned(user, type) selects
+   the row by the unsigned type column and never compares it with the signed claim). *)
+Lemma storage_data_type_unbound st now issue user dt dt' data exp col :
+  c_storage st now user {| r_col_exp := col; r_jws := p_storage st issue user dt data exp |} =
+  c_storage st now user {| r_col_exp := col; r_jws := p_storage st issue user dt' data exp |}.
+Proof.
+  unfold c_storage, storage_data, p_storage. cbn [r_col_exp r_jws].
+  destruct (col >? unix now); [|reflexivity].
+  unfold sign, verify. cbn [t_signer t_alg t_tampered t_claims].
+  destruct (trusted_key st (s_signer st) && allowed_alg st (s_signer_alg st) && negb false); [|reflexivity].
+  rewrite !dec_enc_storage. cbn [bind g_iss g_aud g_token_type g_nbf g_exp g_sub g_data].
+  destruct (std_ok st now (s_issuer st) [s_issuer st] k_storage k_storage (unix issue) && negb (exp <? unix now)); reflexivity.
+Qed.
